@@ -102,6 +102,8 @@ type SelExpr struct {
 	Star bool
 	E    Expr
 	As   string
+	// StarOf, with Star, is the table of a qualified star: "t1.*" (qual.go)
+	StarOf string
 }
 type Order struct {
 	E   Expr
@@ -169,7 +171,11 @@ type Stmt struct {
 	ChangedSite int
 	Over        map[int]Lit // literal overrides by value-site index (how a sibling differs from its base)
 	// Rows is set for row-count relatives of INSERT ... VALUES statements (rows.go); nil for pool statements
-	Rows     *RowRel
+	Rows *RowRel
+	// Occs lists the places where the statement names a table (FROM, JOIN, INSERT INTO, UPDATE, DELETE FROM, sub-selects) or
+	// qualifies a column / star with a table name; Qual is set for schema-qualified relatives of a statement (qual.go)
+	Occs     []Occ
+	Qual     *QualRel
 	variants []string
 }
 
@@ -195,6 +201,11 @@ type renderer struct {
 	direct  []string
 	sub     []string
 	derived bool
+	// name occurrences (qual.go)
+	qual       map[int]string // occurrence -> schema qualifier it is spelled with
+	occs       []Occ
+	occCovered map[int]bool // occurrences a pattern does not spell out (under a placeholder / after a generalised WHERE)
+	joinN      int
 }
 
 func (r *renderer) kw(words string) {
@@ -281,7 +292,7 @@ func (r *renderer) lit(l Lit) {
 func (r *renderer) expr(e Expr) {
 	switch x := e.(type) {
 	case Col:
-		r.raw(x.Name)
+		r.raw(r.colText(x.Name))
 	case Lit:
 		r.lit(x)
 	case Cmp:
@@ -417,8 +428,9 @@ func (r *renderer) subquery(s *Select) {
 func (r *renderer) tref(t TableRef) {
 	switch x := t.(type) {
 	case TName:
-		r.table(x.Name)
-		r.raw(x.Name)
+		n := r.name(x.Name, r.fromClass())
+		r.table(n)
+		r.raw(n)
 		if x.As != "" {
 			r.kw("as")
 			r.raw(x.As)
@@ -426,7 +438,9 @@ func (r *renderer) tref(t TableRef) {
 	case Join:
 		r.tref(x.L)
 		r.kw(x.Kind)
+		r.joinN++
 		r.tref(x.R)
+		r.joinN--
 		if x.On != nil {
 			r.kw("on")
 			r.expr(x.On)
@@ -474,16 +488,21 @@ func (r *renderer) where(w Expr) (generalised bool) {
 func (r *renderer) column(e Expr, star bool) {
 	_, rep, _ := r.site("column", 0, "")
 	if rep {
-		// a qualified column keeps its qualifier: t1.id generalises to t1.%%COLUMN%%
+		// a qualified column keeps its qualifier: t1.id generalises to t1.%%COLUMN%% (backup.t1.id to backup.t1.%%COLUMN%%)
 		if c, ok := e.(Col); ok && !star && strings.Contains(c.Name, ".") {
-			r.raw(c.Name[:strings.Index(c.Name, ".")+1] + "%%COLUMN%%")
-		} else {
-			r.raw("%%COLUMN%%")
+			t := r.colText(c.Name) // the qualifier stays spelled out: its occurrence is registered outside the muted part
+			r.raw(t[:strings.LastIndex(t, ".")+1] + "%%COLUMN%%")
+			return
 		}
+		r.raw("%%COLUMN%%")
 		r.mute++
 	}
 	if star {
-		r.p("*")
+		if so, ok := e.(starOf); ok {
+			r.raw(r.nameLoose(so.tbl, "star-qualifier", so.alone) + ".*")
+		} else {
+			r.p("*")
+		}
 	} else {
 		r.expr(e)
 	}
@@ -501,7 +520,11 @@ func (r *renderer) sel(s *Select) {
 		if i > 0 {
 			r.p(",")
 		}
-		r.column(c.E, c.Star)
+		if c.Star && c.StarOf != "" {
+			r.column(starOf{c.StarOf, len(s.Cols) == 1}, true)
+		} else {
+			r.column(c.E, c.Star)
+		}
 		if c.As != "" {
 			r.kw("as")
 			r.raw(c.As)
@@ -576,8 +599,9 @@ func (r *renderer) stmt(n interface{}) {
 		} else {
 			r.kw("insert into")
 		}
-		r.table(x.Table)
-		r.raw(x.Table)
+		n := r.name(x.Table, "insert-into")
+		r.table(n)
+		r.raw(n)
 		if len(x.Cols) > 0 {
 			r.p("(")
 			for i, c := range x.Cols {
@@ -611,23 +635,25 @@ func (r *renderer) stmt(n interface{}) {
 		}
 	case *Update:
 		r.kw("update")
-		r.table(x.Table)
-		r.raw(x.Table)
+		n := r.name(x.Table, "update")
+		r.table(n)
+		r.raw(n)
 		r.kw("set")
 		r.clause = "set"
 		for i, s := range x.Sets {
 			if i > 0 {
 				r.p(",")
 			}
-			r.raw(s.Col)
+			r.raw(r.colText(s.Col))
 			r.p("=")
 			r.value(s.Val)
 		}
 		r.where(x.Where)
 	case *Delete:
 		r.kw("delete from")
-		r.table(x.Table)
-		r.raw(x.Table)
+		n := r.name(x.Table, "delete-from")
+		r.table(n)
+		r.raw(n)
 		r.where(x.Where)
 	default:
 		panic("censorgen: unknown statement node")
@@ -635,7 +661,12 @@ func (r *renderer) stmt(n interface{}) {
 }
 
 func (s *Stmt) renderer(mask Mask, pattern bool) *renderer {
-	return &renderer{mask: mask, pattern: pattern, covered: map[int]bool{}, shadow: map[int]bool{}, feat: map[string]bool{}, used: map[string]bool{}, over: s.Over}
+	r := &renderer{mask: mask, pattern: pattern, covered: map[int]bool{}, shadow: map[int]bool{}, feat: map[string]bool{}, used: map[string]bool{}, over: s.Over,
+		occCovered: map[int]bool{}}
+	if s.Qual != nil {
+		r.qual = s.Qual.At
+	}
+	return r
 }
 
 func feats(m map[string]bool) string {
@@ -680,6 +711,7 @@ func (s *Stmt) Finish() {
 	}
 	s.DerivedFrom = r.derived
 	s.Sites = r.sites
+	s.Occs = r.occs
 	s.Canon = Join1(r.out)
 }
 
@@ -709,6 +741,8 @@ type Pattern struct {
 	Shadow  map[int]bool // value sites standing after a generalised WHERE of their SELECT (not decided)
 	Expr    string       // expression forms (case-else, cast, interval) the pattern still spells out, "plain" if none
 	Mask    Mask
+	// OccCovered: name occurrences of the source (Stmt.Occs) the pattern does not spell out
+	OccCovered map[int]bool
 }
 
 // WholePlaceholder returns the top-level placeholder for a statement kind.
@@ -728,7 +762,7 @@ func (s *Stmt) Derive(mask Mask) Pattern {
 	if len(gen) == 0 {
 		gen = []string{"none"}
 	}
-	return Pattern{Text: Join1(r.out), SrcID: s.ID, Gen: gen, Covered: r.covered, Shadow: r.shadow, Expr: feats(r.feat), Mask: mask}
+	return Pattern{Text: Join1(r.out), SrcID: s.ID, Gen: gen, Covered: r.covered, Shadow: r.shadow, Expr: feats(r.feat), Mask: mask, OccCovered: r.occCovered}
 }
 
 // DeriveWhole returns the %%SELECT%% / %%INSERT%% / ... pattern of the statement's kind.
